@@ -1,3 +1,38 @@
+/-
+  Props/C16.lean — C16: a merged step is equivalent to the two steps it replaces.
+  (That the merged step *applies* whenever the pair does is decided by the correspondence run and the
+  failing-input search; the theorems are conditional on it.)  Helper lemmas: Proofs/Merge.lean.
+-/
 import PM.Step
+import Proofs.StepToks
+import Proofs.Merge
 namespace PM.C16
+open PM
+
+/-- **token-level equivalence, every mergeable pair**: if the two steps apply one after the other,
+    `merge` returns a step and that step applies to the original document, then the merged step yields
+    exactly the token sequence of the two-step result (hence the same size delta) -/
+theorem merge_equiv_toks (S : Schema) (s1 s2 m : Step) (d d1 d2 d' : Node)
+    (h1 : S.apply s1 d = .ok d1) (h2 : S.apply s2 d1 = .ok d2)
+    (hm : s1.merge s2 = some m) (h' : S.apply m d = .ok d') :
+    ftoks d'.kids = ftoks d2.kids ∧ d'.sameMarkup d2 = true ∧ fsize d'.kids = fsize d2.kids := by
+  sorry
+
+/-- **document-level equivalence** for normal-form results (every library operation returns normal
+    form: `replace_norm`) -/
+theorem merge_equiv (S : Schema) (s1 s2 m : Step) (d d1 d2 d' : Node)
+    (h1 : S.apply s1 d = .ok d1) (h2 : S.apply s2 d1 = .ok d2)
+    (hm : s1.merge s2 = some m) (h' : S.apply m d = .ok d')
+    (hn' : fnorm d'.kids = true) (hn2 : fnorm d2.kids = true) : d' = d2 := by
+  sorry
+
+/-- what merges: only replace/replace (non-structure, adjacent, closed at the seam) and equal-mark
+    add/add, remove/remove with touching or overlapping ranges; the merged step covers the union -/
+theorem merge_shape (s1 s2 m : Step) (hm : s1.merge s2 = some m) :
+    (∃ f t sl f' t' sl' sl'', s1 = .replace f t sl false ∧ s2 = .replace f' t' sl' false ∧
+        (m = .replace f (t + (t' - f')) sl'' false ∨ m = .replace f' t sl'' false)) ∨
+    (∃ f t f' t' mk, s1 = .addMark f t mk ∧ s2 = .addMark f' t' mk ∧ m = .addMark (min f f') (max t t') mk ∧ f ≤ t' ∧ f' ≤ t) ∨
+    (∃ f t f' t' mk, s1 = .removeMark f t mk ∧ s2 = .removeMark f' t' mk ∧ m = .removeMark (min f f') (max t t') mk ∧ f ≤ t' ∧ f' ≤ t) := by
+  sorry
+
 end PM.C16
